@@ -1170,3 +1170,47 @@ func checkHistogramInit(c *Ctx, r *Report) {
 		r.Check(okOrder, "M-HISTINIT", key, c.pos(fd.Pos()), "initArrays must be called unconditionally before the first bucket is counted")
 	}
 }
+
+// S-BLACKPOINT: the global black point on the histograms of bilevel images
+func checkBlackPointBilevel(c *Ctx, r *Report) {
+	r.Rule("S-BLACKPOINT", "GlobalHistogramBinarizer.estimateBlackPoint, folded from source on the 32-bucket histograms a pure black-and-white image gives - black and white in any proportion from one black sample in two thousand to the reverse, and white alone (the sampled rows of a narrow, tall rendering lie in the quiet zone and miss the symbol) - returns without an error a black point above 0 and at most 255: black pixels (0) fall below it, white pixels (255) do not, so the image is binarised to exactly its black pixels", 1)
+	fd, p := c.funcDeclOf("", "GlobalHistogramBinarizer.estimateBlackPoint")
+	key := "gozxing.GlobalHistogramBinarizer.estimateBlackPoint/bilevel"
+	if fd == nil {
+		r.AnchorLost("S-BLACKPOINT", key, "method not found")
+		return
+	}
+	r.Analysed(key)
+	bad := ""
+	for _, hist := range [][2]int64{{500, 1500}, {1, 1999}, {1999, 1}, {1000, 1000}, {0, 2000}, {37, 80}} {
+		buckets := &Val{K: VList}
+		for i := 0; i < 32; i++ {
+			n := int64(0)
+			if i == 0 {
+				n = hist[0]
+			}
+			if i == 31 {
+				n = hist[1]
+			}
+			buckets.L = append(buckets.L, vint(n))
+		}
+		h := &rpf{unroll: 1000, env: map[types.Object]*Val{}}
+		h.env[recvObj(p, fd)] = &Val{K: VStruct, Ptr: true, Fields: map[string]*Val{}}
+		h.callHook = errCtorHook
+		res, err := c.rpfCall(fd, p, []*Val{buckets}, h)
+		what := fmt.Sprintf("a histogram of %d black and %d white samples", hist[0], hist[1])
+		if err != nil {
+			bad = "?" + what + ": " + err.Error()
+			break
+		}
+		if len(res) != 2 || res[1].K != VNil {
+			bad = what + " is refused as having no contrast; a black-and-white image whose sampled rows look like this is then not read at all"
+			break
+		}
+		if !res[0].isInt() || res[0].I <= 0 || res[0].I > 255 {
+			bad = fmt.Sprintf("%s gives the black point %v: black (0) must fall below it and white (255) must not", what, valString(res[0]))
+			break
+		}
+	}
+	reportFold(r, c, "S-BLACKPOINT", key, fd.Pos(), bad)
+}
